@@ -69,6 +69,14 @@ fn parse_modified_hdrs(
     Ok((precondition_failed, not_modified))
 }
 
+/// Truncates to whole seconds since the epoch, as formatting an HTTP-date does.
+fn truncate_to_secs(t: SystemTime) -> SystemTime {
+    match t.duration_since(SystemTime::UNIX_EPOCH) {
+        Ok(d) => SystemTime::UNIX_EPOCH + std::time::Duration::from_secs(d.as_secs()),
+        Err(_) => t,
+    }
+}
+
 /// Serves GET and HEAD requests for a given byte-ranged entity.
 /// Handles conditional & subrange requests.
 /// The caller is expected to have already determined the correct entity and appended
@@ -125,7 +133,14 @@ fn serve_inner<
         );
     }
 
-    let last_modified = ent.last_modified();
+    // Compare conditional request dates against the value that is (or would be) served as
+    // `Last-Modified`: the modification time clamped to now (see below) and truncated to whole
+    // seconds, which is all an HTTP-date can express. Otherwise a client echoing the
+    // `Last-Modified` it was served would be told the entity changed since.
+    let now = SystemTime::now();
+    let last_modified = ent
+        .last_modified()
+        .map(|m| truncate_to_secs(std::cmp::min(m, now)));
     let etag = ent.etag();
 
     let (precondition_failed, not_modified) =
@@ -179,7 +194,7 @@ fn serve_inner<
         // See RFC 7232 section 2.2.1 <https://tools.ietf.org/html/rfc7232#section-2.2.1>: the
         // Last-Modified must not exceed the Date. To guarantee this, set the Date now rather than
         // let hyper set it.
-        let d = SystemTime::now();
+        let d = now;
         res = res.header(header::DATE, fmt_http_date(d));
         let clamped_m = std::cmp::min(m, d);
         res = res.header(header::LAST_MODIFIED, fmt_http_date(clamped_m));
